@@ -16,7 +16,7 @@ void json_str(FILE *f, const std::string &s) {
   fputc('"', f);
   for (unsigned char c : s) {
     if (c == '"' || c == '\\') { fputc('\\', f); fputc(c, f); }
-    else if (c < 0x20 || c >= 0x7f) fprintf(f, "\\u%04x", c);
+    else if (c < 0x20 || c == 0x7f) fprintf(f, "\\u%04x", c);      // bytes >= 0x80 as they are (UTF-8)
     else fputc(c, f);
   }
   fputc('"', f);
